@@ -146,7 +146,7 @@ func ruleTabPayload(c *Ctx) {
 	if fd := c.fn("nan"); fd != nil {
 		env := p.newCanonEnv(fd)
 		got := env.canonStmts(fd.Body.List)
-		want := "return lit(Decimal{conv(uint64;((P0|(P1<<K(8)))|(P2<<K(16)))),K(8935141660703064064)})"
+		want := "return lit(Decimal{conv(uint64;((P1<<K(8))|(P2<<K(16))|P0)),K(8935141660703064064)})"
 		c.check(got == want, "nan.pack", fd, "payload = op | lhs<<8 | rhs<<16 in the low word of a quiet NaN",
 			"nan() no longer packs op | lhs<<8 | rhs<<16 into a bare NaN: "+got)
 	}
@@ -241,7 +241,7 @@ func ruleTabPayload(c *Ctx) {
 			c.undecided("payload.string", fd, "switch not found")
 		} else {
 			env := p.newCanonEnv(fd)
-			c.check(env.canon(sw.Tag) == "(R&K(255))", "payload.string.tag", sw, "switch on p & 0xff", "Payload.String must switch on the low 8 bits (operation code): "+env.canon(sw.Tag))
+			c.check(env.canon(sw.Tag) == "(K(255)&R)", "payload.string.tag", sw, "switch on p & 0xff", "Payload.String must switch on the low 8 bits (operation code): "+env.canon(sw.Tag))
 			seen := map[int64]bool{}
 			for _, cc := range sw.Body.List {
 				cl := cc.(*ast.CaseClause)
